@@ -886,3 +886,13 @@ def classify_exits(body, loop, sink_blocks, queue_names):
 
 def _names(e):
     return ' '.join(x.b for x in e.walk() if x.k in ('let', 'local') and x.b)
+
+
+def is_poll_disc(c):
+    """is this discriminant fact about the Poll value of an await loop (Ready/Pending)?"""
+    if c.kind != 'disc':
+        return False
+    top = c.expr
+    while top.k in ('let', 'ref', 'deref'):
+        top = top.c if top.k == 'let' else top.a
+    return top.k == 'call' and top.c is not None and top.c.declared.endswith('Future::poll')
